@@ -60,10 +60,14 @@ PROLOGUE = """#ifndef %(g)s
 #define PUBLISHED __published
 #define BEGIN_PUBLISH __begin_publish
 #define END_PUBLISH __end_publish
+#define MAKE_PROPERTY(n, ...) __make_property(n, __VA_ARGS__)
+#define MAKE_SEQ(n, a, b) __make_seq(n, a, b)
 #else
 #define PUBLISHED public
 #define BEGIN_PUBLISH
 #define END_PUBLISH
+#define MAKE_PROPERTY(n, ...)
+#define MAKE_SEQ(n, a, b)
 #endif
 #include <string>
 struct _object;
@@ -86,22 +90,116 @@ class D : public B {
 PUBLISHED:
   D();
 };
+#include "ext%(k)d.h"
+namespace ns%(k)d {
+  enum Color { red, green, blue };
+  class Inner {
+  PUBLISHED:
+    Inner();
+    int v() const;
+    class Nested {
+    PUBLISHED:
+      Nested();
+      enum K { k1, k2 };
+      K k() const;
+    };
+  };
+}
+typedef Tpl%(k)d<int> TplInt%(k)d;
+typedef Tpl%(k)d<double> TplDouble%(k)d;
+class RB1_%(k)d : public X1_%(k)d {
+PUBLISHED:
+  RB1_%(k)d();
+  virtual int v1();
+  int get_a() const;
+  void set_a(int a);
+  MAKE_PROPERTY(a, get_a, set_a);
+};
+class RB2_%(k)d {
+PUBLISHED:
+  RB2_%(k)d();
+  virtual ~RB2_%(k)d();
+  virtual int v2();
+};
+class Multi%(k)d : public RB1_%(k)d, public RB2_%(k)d {
+PUBLISHED:
+  Multi%(k)d();
+  Multi%(k)d(const Multi%(k)d &copy);
+  explicit Multi%(k)d(int a);
+  Multi%(k)d(X2_%(k)d *x);
+  Multi%(k)d(const X3_%(k)d &x);
+  int over(X1_%(k)d *a);
+  int over(X2_%(k)d *a);
+  int over(X3_%(k)d *a);
+  int over(const RB2_%(k)d &a);
+  int over(ns%(k)d::Inner *a);
+  int over(TplInt%(k)d *t);
+  int over(TplDouble%(k)d *t);
+  int dflt(int a, double b = 2.0, const std::string &c = "x\\\"y");
+  int dflt(long a);
+  bool operator == (const Multi%(k)d &o) const;
+  bool operator == (const X2_%(k)d &o) const;
+  bool operator < (const Multi%(k)d &o) const;
+  int operator [] (int i) const;
+  int __getitem__(long i) const;
+  size_t get_num_items() const;
+  X1_%(k)d *get_item(size_t i) const;
+  MAKE_SEQ(get_items, get_num_items, get_item);
+  static Multi%(k)d *make(X1_%(k)d *x);
+  static Multi%(k)d *make(X2_%(k)d *x);
+  ns%(k)d::Color col(ns%(k)d::Color c);
+  ns%(k)d::Inner::Nested::K kk(ns%(k)d::Inner::Nested::K k);
+  int _pub;
+};
+BEGIN_PUBLISH
+int gf%(k)d(X1_%(k)d *a);
+int gf%(k)d(X2_%(k)d *a);
+int gf%(k)d(Multi%(k)d *a);
+extern int global_var%(k)d;
+END_PUBLISH
+"""
+
+# a header that is included but not named on the command line: its types become external imports
+EXT = """#ifndef EXT%(k)d_H
+#define EXT%(k)d_H
+class X1_%(k)d {
+PUBLISHED:
+  X1_%(k)d();
+  virtual ~X1_%(k)d();
+  int x1();
+};
+class X2_%(k)d {
+PUBLISHED:
+  X2_%(k)d();
+  int x2();
+};
+class X3_%(k)d : public X1_%(k)d {
+PUBLISHED:
+  X3_%(k)d();
+};
+template<class T> class Tpl%(k)d {
+PUBLISHED:
+  Tpl%(k)d();
+  T get() const;
+  void set(T v);
+};
+#endif
 """
 
 
 def fname(kind, i):
-    return {"m": "f%d", "s": "s%d", "g": "g%d", "k": "K%d"}[kind] % i
+    return {"m": "f%d", "s": "s%d", "g": "g%d", "k": "K%d", "o": "O%d"}[kind] % i
 
 
 def render_lib(k, sets):
-    """sets: list of (index, rec).  Four renderings rotate: method, static method, global function,
-    constructor; returns header text and {function name as it appears in a signature: index}."""
+    """sets: list of (index, rec).  Five renderings rotate: method, static method, global function,
+    constructor, operator () (a slot wrapper); returns header text and {function name as it appears in a signature: index}."""
     L = "LIB%d" % k
     out = [PROLOGUE % dict(g=L + "_H", L=L, v=k + 1, k=k)]
     names = {}
     meth, glob, ctor = [], [], []
     for i, rec in sets:
-        kind = "msgk"[i % 4]
+        kind = "msgko"[i % 5]
         n = fname(kind, i)
         for ov in rec["names"]:
             params = ", ".join("%s p%d" % (DECL[t], j) for j, t in enumerate(ov))
@@ -111,18 +209,23 @@ def render_lib(k, sets):
                 meth.append("  static int %s(%s);" % (n, params))
             elif kind == "g":
                 glob.append("int %s(%s);" % (n, params))
+            elif kind == "k":
+                ctor.append((n, "  %s(%s);" % (n, params)))
             else:
-                ctor.append((n, params))
-        names[("A%d::%s" % (k, n)) if kind in "ms" else (n if kind == "g" else "%s::%s" % (n, n))] = i
+                ctor.append((n, "  int operator () (%s);" % params))
+        names[{"m": "A%d::%s" % (k, n), "s": "A%d::%s" % (k, n), "g": n, "k": "%s::%s" % (n, n),
+               "o": "%s::operator ()" % n}[kind]] = i
     out.append("class A%d {\nPUBLISHED:\n  A%d();\n%s\n};" % (k, k, "\n".join(meth)))
     cur = None
-    for n, params in ctor:
+    for n, decl in ctor:
         if n != cur:
             if cur:
                 out.append("};")
             out.append("class %s {\nPUBLISHED:" % n)
+            if n[0] == "O":
+                out.append("  %s();" % n)
             cur = n
-        out.append("  %s(%s);" % (n, params))
+        out.append(decl)
     if cur:
         out.append("};")
     out.append("BEGIN_PUBLISH\n%s\nEND_PUBLISH" % "\n".join(glob))
@@ -251,7 +354,7 @@ def differing_functions(d, a, b, names):
         return []
     hit, cur = [], None
     for i in range(min(len(la), len(lb))):
-        m = re.search(r"\b(?:A\d+::)?([fsgK]\d+)\b", la[i])
+        m = re.search(r"\b(?:A\d+::)?([fsgKO]\d+)\b", la[i])
         if m and ("Python function wrapper" in la[max(0, i - 1)] or la[i].startswith((" * ", "static", "PyObject"))):
             cur = m.group(1)
         if la[i] != lb[i] and cur and cur not in hit:
@@ -259,6 +362,18 @@ def differing_functions(d, a, b, names):
             if len(hit) >= 5:
                 break
     return hit
+
+
+def first_difference(d, a, b, ctxlines=6):
+    try:
+        la = open(os.path.join(d, a), errors="replace").read().split("\n")
+        lb = open(os.path.join(d, b), errors="replace").read().split("\n")
+    except OSError:
+        return None
+    for i in range(min(len(la), len(lb))):
+        if la[i] != lb[i]:
+            return dict(line=i + 1, plain=la[max(0, i - 2):i + ctxlines], other=lb[max(0, i - 2):i + ctxlines])
+    return dict(line=min(len(la), len(lb)) + 1, plain=[], other=[])
 
 
 def run_check(ctx):
@@ -321,6 +436,7 @@ def run_check(ctx):
         os.makedirs(d)
         text, names = render_lib(k, mine)
         open(os.path.join(d, "lib%d.h" % k), "w").write(text)
+        open(os.path.join(d, "ext%d.h" % k), "w").write(EXT % dict(k=k))
         libs.append((k, d, tier, shuf))
         index[k] = names
     results = run.pmap(lib_job, libs, workers=min(NCPU, 12))
@@ -335,39 +451,40 @@ def run_check(ctx):
         for f in res["fail"]:
             raise MachineryError("interrogate failed on generated library %d (%s, %s): rc=%s %s" % (
                 k, f["be"], f["h"], f["rc"], f["stderr"]))
+        bad = {}
         for rec in res["runs"]:
             n_cmp += 1
             if rec.get("differs"):
-                fn = []
-                if "oc" in rec["differs"]:
-                    fn = differing_functions(d, rec["differs"]["oc"][0], rec["differs"]["oc"][1], index[k])
-                ex = []
-                for n in fn:
-                    i = int(n[1:])
-                    ex.append(dict(function=n, overloads=sets[i]["names"], comparator_ties=sets[i]["ties"]))
-                keep = {}
-                os.makedirs(ctx.replay_dir, exist_ok=True)
-                for x, (a, b) in rec["differs"].items():
-                    for f in (a, b):
-                        dst = os.path.join(ctx.replay_dir, "lib%d-%s" % (k, f))
-                        shutil.copy(os.path.join(d, f), dst)
-                        keep.setdefault(x, []).append(dst)
-                shutil.copy(os.path.join(d, "lib%d.h" % k), os.path.join(ctx.replay_dir, "lib%d.h" % k))
-                ctx.violation(
-                    "interrogate %s on generated library %d: %s differ between the plain run and run '%s' "
-                    "(same arguments, same SOURCE_DATE_EPOCH); e.g. %s" % (
-                        rec["be"], k, "/".join("-" + x for x in sorted(rec["differs"])), rec["h"],
-                        "; ".join("%s(%s)" % (e["function"], " | ".join(",".join(o) for o in e["overloads"]))
-                                  for e in ex[:3]) or "see files"),
-                    dict(header=os.path.join(ctx.replay_dir, "lib%d.h" % k), args=rec["args"], run=rec["h"],
-                         hidden=[h for h in hidden(tier) if h["name"] == rec["h"]], files=keep, functions=ex))
+                bad.setdefault(rec["be"], []).append(rec)
+        for be, recs in sorted(bad.items()):
+            # one violation per (library, back-end); the payload carries a small reproducer, not the files
+            rec = recs[0]
+            fn, excerpt = [], {}
+            for x, (a, b) in sorted(rec["differs"].items()):
+                if x == "oc":
+                    fn = differing_functions(d, a, b, index[k])
+                excerpt[x] = first_difference(d, a, b)
+            ex = []
+            for n in fn:
+                i = int(n[1:])
+                ex.append(dict(function=n, overloads=sets[i]["names"], comparator_ties=sets[i]["ties"],
+                               reproducer_header=render_lib(k, [(i, sets[i])])[0]))
+            ctx.violation(
+                "interrogate %s on generated library %d: %s differ between the plain run and run(s) %s "
+                "(same arguments, same SOURCE_DATE_EPOCH); e.g. %s" % (
+                    be, k, "/".join("-" + x for x in sorted(rec["differs"])), [r["h"] for r in recs],
+                    "; ".join("%s(%s)" % (e["function"], " | ".join(",".join(o) for o in e["overloads"]))
+                              for e in ex[:3]) or "see excerpt"),
+                dict(args=rec["args"], runs=[r["h"] for r in recs],
+                     hidden=[h for h in hidden(tier) if h["name"] in [r["h"] for r in recs]],
+                     first_difference=excerpt, functions=ex[:3]))
         for ne in res.get("noepoch", []):
             a, b = ne
             n_cmp += 1
             if a["rc"] != 0 or b["rc"] != 0:
                 raise MachineryError("interrogate failed without SOURCE_DATE_EPOCH on library %d" % k)
             for x in ("oc", "od", "oh"):
-                if a["parts"][x][1] != b["parts"][x][1]:
+                if a["parts"][x][1] != b["parts"][x][1] and a["be"] not in bad:
                     ctx.violation("interrogate %s on generated library %d without SOURCE_DATE_EPOCH: two runs a "
                                   "second apart differ in -%s in more than the file identifier" % (a["be"], k, x),
                                   dict(lib=k, backend=a["be"], file=x))
@@ -439,12 +556,12 @@ def run_check(ctx):
         cats.append((k, cat, n))
         for ev in info:
             sigs = [x["s"] for x in ev["in"]]
-            fn = sigs[0].split("(")[0]
+            fn = sigs[0][:sigs[0].rindex("(")]
             i = index[k].get(fn)
             if i is None:
                 continue
             rec = sets[i]
-            mine = [x for x in ev["in"] if x["s"].split("(")[0] == fn]
+            mine = [x for x in ev["in"] if x["s"][:x["s"].rindex("(")] == fn]
             # spec sanity: signature spelling / order and get_type_sort keys are what Repro.tla says
             by_sig = sorted(mine, key=lambda x: x["s"])
             if len(by_sig) == len(rec["names"]):
@@ -473,14 +590,15 @@ def run_check(ctx):
             lines = open(cat).read().split("\n")
             at = (r.stuck_at or 1)
             ev = json.loads(lines[at - 1]) if at - 1 < len(lines) and lines[at - 1] else {}
-            os.makedirs(ctx.replay_dir, exist_ok=True)
-            keep = os.path.join(ctx.replay_dir, os.path.basename(cat))
-            shutil.copy(cat, keep)
             ctx.violation("H-sort trace of library %d %s by ReproTrace at event %d: the set {%s} was emitted as %s, "
                           "an earlier run emitted the same set in another order" % (
                               k, st, at, "; ".join(sorted(x["s"] for x in ev.get("in", []))),
                               [x["s"] for x in ev.get("out", [])]),
-                          dict(trace=keep, event=ev, tlc_tail=r.out[-1500:]))
+                          dict(event=ev, earlier_events_of_the_same_set=[
+                              json.loads(x) for x in lines[:at - 1]
+                              if x.startswith('{"e":"Sort"') and ev and
+                              sorted(y["s"] for y in json.loads(x)["in"]) == sorted(y["s"] for y in ev["in"])][:2],
+                              tlc_tail=r.out[-1500:]))
     shuffled = [i for i, p in perms.items() if len(p) > 1]
     nontrivial = [i for i in shuffled if sets[i]["ties"]]
     ctx.notes["sort_events_validated"] = n_events
